@@ -1,6 +1,9 @@
 import RsslVerif.Gen.HashSites
 import RsslVerif.Gen.EnumRange
+import RsslVerif.Gen.GlobalState
+import RsslVerif.Gen.Reserved
 import RsslVerif.Model.HashOrder
+import RsslVerif.Model.History
 import RsslVerif.Lemmas.EnumRange
 /-!
 # C07 — compilation is deterministic
@@ -276,6 +279,88 @@ theorem scoped_declarations_unobserved :
 
 /-- Tie to the source: no clocks, randomness, environment reads or threads in the compiler crates. -/
 theorem no_other_nondeterminism : RsslVerif.Gen.HashSites.otherNondeterminism = [] := by decide
+
+/-! ## History independence: the result of a request does not depend on what the process compiled before
+
+The property speaks of compiling the same inputs again "in the same or in another process".  A process may have
+compiled anything before (another target, another input, a failing input), so the result of a request has to be
+the one a fresh process gives.  `Model/History.lean` fixes the notions; the tie is the regenerated inventory
+`Gen.GlobalState` of everything that could survive the return of `compile`. -/
+section History
+open RsslVerif.Model.History
+
+/-- If the result of a step never reads the process-wide state, every request compiled after ANY history gives
+    the result a fresh process gives. (Full: all state types, all step functions, all histories.) -/
+theorem history_independent_of_stateless {σ ρ β : Type} (step : σ → ρ → β × σ)
+    (hpure : ∀ s s' r, (step s r).1 = (step s' r).1) (s₀ : σ) (h : List ρ) (r : ρ) :
+    resultAfter step s₀ h r = fresh step s₀ r := hpure _ _ _
+
+/-- ... and the whole list of results of a sequence is the list of the fresh results: in particular every
+    permutation of a sequence of requests gives, request by request, the same results. -/
+theorem runSeq_eq_map_fresh {σ ρ β : Type} (step : σ → ρ → β × σ)
+    (hpure : ∀ s s' r, (step s r).1 = (step s' r).1) (s₀ : σ) (rs : List ρ) :
+    ∀ s, runSeq step s rs = rs.map (fresh step s₀) := by
+  induction rs with
+  | nil => intro s; rfl
+  | cons r rs ih =>
+    intro s
+    simp only [runSeq, List.map_cons, ih]
+    exact congrArg (· :: _) (hpure s s₀ r)
+
+/-- A process whose only state is `Unit` (no `static` with interior mutability, no thread local: what
+    `no_process_wide_state` finds in the source) is history independent, whatever its step function does. -/
+theorem history_independent_of_no_state {ρ β : Type} (step : Unit → ρ → β × Unit) (h : List ρ) (r : ρ) :
+    resultAfter step () h r = fresh step () r :=
+  history_independent_of_stateless step (fun _ _ _ => rfl) () h r
+
+/-- the transcription of the reserved-set part of `NameMap::build` is history independent -/
+theorem real_reserved_set_history_independent (h : List NameReq) (r : NameReq) :
+    resultAfter stepReal () h r = fresh stepReal () r := history_independent_of_no_state stepReal h r
+
+/-- non-vacuity: `main` is reserved by the Metal exporter only (regenerated lists), and the real step renames it on
+    Metal and keeps it on HLSL whatever was compiled before -/
+example : RsslVerif.Gen.Reserved.msl.contains "main" = true ∧ RsslVerif.Gen.Reserved.hlsl.contains "main" = false ∧
+    runSeq stepReal () [⟨RsslVerif.Gen.Reserved.hlsl, ["main", "f"]⟩, ⟨RsslVerif.Gen.Reserved.msl, ["main", "f"]⟩]
+      = [["main", "f"], ["main_0", "f"]] ∧
+    runSeq stepReal () [⟨RsslVerif.Gen.Reserved.msl, ["main", "f"]⟩, ⟨RsslVerif.Gen.Reserved.hlsl, ["main", "f"]⟩]
+      = [["main_0", "f"], ["main", "f"]] := by decide +kernel
+
+/-- (negation with witness) the seeded variant C07-5 — the reserved set of the first build kept in a `static
+    OnceLock` — is NOT history independent: a Metal request declaring `main` gives `main_0` alone and `main` after
+    one HLSL request, with the reserved lists of the current source. -/
+theorem once_lock_history_dependent :
+    ∃ (h : List NameReq) (r : NameReq),
+      resultAfter stepOnceLock none h r ≠ fresh stepOnceLock none r :=
+  ⟨[⟨RsslVerif.Gen.Reserved.hlsl, ["f"]⟩], ⟨RsslVerif.Gen.Reserved.msl, ["main"]⟩, by decide +kernel⟩
+
+/-- the reviewed list of `static` items of the compiler crates: none -/
+def reviewedStatics : List RsslVerif.Gen.GlobalState.Static := []
+
+/-- Tie to the source: the compiler crates have no process-wide state — the regenerated list of `static` items
+    (module level or inside functions) equals the reviewed list and none of them has interior mutability; there
+    is no `thread_local!` / `lazy_static!`, no mention of OnceLock / OnceCell / LazyLock / Mutex / RwLock / Atomic* /
+    Once / UnsafeCell / Arc, and no `Box::leak` / `mem::forget` / `unsafe` with which one could be built by hand.
+    The seeded change C07-5 adds `static RESERVED_NAME_SET: OnceLock<HashSet<String>>` → this obligation fails. -/
+theorem no_process_wide_state :
+    RsslVerif.Gen.GlobalState.statics = reviewedStatics ∧
+    RsslVerif.Gen.GlobalState.statics.all (fun s => !s.interior && s.kind == "static") = true ∧
+    RsslVerif.Gen.GlobalState.stateMacros = [] ∧
+    RsslVerif.Gen.GlobalState.syncTypeUses = [] ∧
+    RsslVerif.Gen.GlobalState.leaks = [] := by decide
+
+/-- Tie to the source: nothing from outside the arguments enters a compilation — no environment variables,
+    clocks, process / thread identity, randomness, hasher states, working directory, panic hooks, type ids or
+    addresses turned into integers; and every crate the compiler links is a path dependency of the workspace
+    (so the inventories above see all the code), without build scripts. Wider than `no_other_nondeterminism`
+    (it also catches `use std::env; env::var(..)`, `Instant`, `process::id`, `DefaultHasher`). -/
+theorem no_ambient_inputs :
+    RsslVerif.Gen.GlobalState.ambient = [] ∧ RsslVerif.Gen.GlobalState.externalDependencies = [] := by decide
+
+/-- the inventory looked at the source: at least 60 files were scanned (an empty scan would make the two
+    theorems above vacuous) -/
+theorem global_state_scan_not_empty : 60 ≤ RsslVerif.Gen.GlobalState.scannedFiles := by decide
+
+end History
 
 /-! ## Worked example of a commutative fold: `Context::end_enum` (typer/src/typer/scopes.rs)
 
